@@ -838,11 +838,14 @@ class Gen:
         # The library parses the target greedily from the left and prefers "unfuse" whenever the sub-sizes of an
         # axis match the next target dims, so a target is only *unambiguously* derivable if
         #  R1  no axis that the plan keeps/regroups has sub-sizes equal to the target dims at its position, and
-        #  R2  new singleton dims are not mixed with existing size-one axes (either could be matched first).
+        #  R2  new singleton dims are not mixed with existing size-one axes (either could be matched first), and
+        #  R3  a plan that unfuses something does not also fuse groups containing size-one axes (the parser treats
+        #      those axes as "squeezed" singletons of their own, which shifts the group boundaries).
         # (Sparse fused axes - size smaller than the product of their sub-sizes - make such clashes possible;
         #  on ambiguous targets reshape raises ValueError/IndexError, see the driver report.)
         may_insert = not any(d == 1 for d in shape)
         kept = []   # (axis, position in target) of axes not unfused by the plan
+        n_unfuse, ones_in_group = 0, False
         if may_insert and rng.random() < 0.1:
             new.append(1)
         while k < nd:
@@ -850,9 +853,11 @@ class Gen:
             ix = x.indices[k]
             if ix.subinfo is not None and r < 0.45:
                 new.extend(int(s.size_total) for s in ix.subinfo.indices)
+                n_unfuse += 1
                 k += 1
             elif r < 0.75 and k + 1 < nd:
                 g = int(rng.integers(2, min(3, nd - k) + 1))
+                ones_in_group = ones_in_group or any(d == 1 for d in shape[k:k + g])
                 kept.extend((kk, len(new)) for kk in range(k, k + g))
                 new.append(int(np.prod(shape[k:k + g])))
                 k += g
@@ -862,6 +867,8 @@ class Gen:
                 k += 1
             if may_insert and rng.random() < 0.12:
                 new.append(1)
+        if n_unfuse and ones_in_group:
+            return None
         for kk, j in kept:
             si = x.indices[kk].subinfo
             if si is not None:
